@@ -8,6 +8,7 @@ import Driver.OpsNewMap
 import Driver.OpsXml
 import Driver.OpsEnc
 import Driver.OpsSeq
+import Driver.OpsJson
 namespace Mxj.Drv
 
 def dispatch (op : String) (args : List String) : Out :=
@@ -34,6 +35,9 @@ def dispatch (op : String) (args : List String) : Out :=
   | "xenc" => runP opXenc args
   | "xrt" => runP opXrt args
   | "xseq" => runP opXseq args
+  | "jenc" => runP opJenc args
+  | "jquote" => runP opJquote args
+  | "jdec" => runP opJdec args
   | "implonly" => "na"
   | _ => "bad-op"
 
